@@ -484,8 +484,37 @@ func Explore(r *core.Run, sc Scenario, opt Options) Stats {
 			after := sys.ProbeFlip(pr.l, pr.id)
 			m := sys.Msgs[pr.id]
 			b, a := pr.l.Obs, after.Obs
-			if a.Round != b.Round || len(after.Emitted) != len(pr.l.Emitted) || len(a.Ends) != len(b.Ends) || strings.Join(a.Waiting, ",") != strings.Join(b.Waiting, ",") {
-				outs[i] = &out{"flagflip/consumed/" + m.Type, fmt.Sprintf("a %s handed over with the broadcast flag flipped changed the party: round %d->%d emitted %d->%d ends %d->%d waiting %v->%v", m.Type, b.Round, a.Round, len(pr.l.Emitted), len(after.Emitted), len(b.Ends), len(a.Ends), b.Waiting, a.Waiting), append(histOf(pr.l), "F<-"+pr.id)}
+			// "not consumed" = after the flipped hand-over the party is exactly where the reference model puts
+			// it for the UNCHANGED set of properly delivered messages (a party that had already completed its
+			// round may catch up on this call; that is not consumption). Peers only (DESIGN 3a).
+			self := mc.nodes[pr.l.Node].key
+			peers := func(w []string) string {
+				var o []string
+				for _, k := range w {
+					if k != self {
+						o = append(o, k)
+					}
+				}
+				return strings.Join(o, ",")
+			}
+			have := map[string]bool{}
+			for _, id := range pr.l.Delivered {
+				dm := sys.Msg(id)
+				have[fmt.Sprintf("%s|%d", dm.Type, dm.Sender)] = true
+			}
+			ex := mc.expected(pr.l.Node, true, have)
+			var got []string
+			for _, id := range after.Emitted {
+				em := sys.Msg(id)
+				got = append(got, canonEmit(em.Type, em.Bcast, em.To))
+			}
+			sort.Strings(got)
+			wantEnds := 0
+			if ex.finished {
+				wantEnds = 1
+			}
+			if strings.Join(got, ";") != strings.Join(ex.emitted, ";") || len(a.Ends) != wantEnds || peers(a.Waiting) != strings.Join(ex.awaiting, ",") {
+				outs[i] = &out{"flagflip/consumed/" + m.Type, fmt.Sprintf("a %s handed over with the broadcast flag flipped was taken into account: round %d->%d emitted %v (protocol for the unchanged delivered set: %v) ends %d (protocol: %d) waiting %v (protocol: %v)", m.Type, b.Round, a.Round, got, ex.emitted, len(a.Ends), wantEnds, a.Waiting, ex.awaiting), append(histOf(pr.l), "F<-"+pr.id)}
 			}
 			if len(a.Panics) > len(b.Panics) {
 				outs[i] = &out{"flagflip/panic/" + m.Type, a.Panics[len(a.Panics)-1], append(histOf(pr.l), "F<-"+pr.id)}
